@@ -373,7 +373,7 @@ def wf(v):
         out.append(llen(v) >= 0)
         if CTX.scope is not None:
             CTX.scope_constraints.append(llen(v) <= CTX.scope)
-        if isinstance(ty.elem, (List, Tup)) and _has_list(ty.elem):
+        if isinstance(ty.elem, (List, Tup, Opt, Map)) and _has_list(ty.elem):
             out.append(forall_int(0, llen(v), lambda j: z3.And(wf(lget(v, j)) or [z3.BoolVal(True)])))
     elif isinstance(ty, Tup) and v.items is not None:
         for it in v.items:
@@ -387,6 +387,8 @@ def wf(v):
         w = wf(inner)
         if w:
             out.append(z3.Implies(s.is_some(v.t), z3.And(w)))
+    elif isinstance(ty, Map) and _has_list(ty.v):
+        out.append(forall_ty(ty.k, lambda k: z3.And(wf(V(ty.v, z3.Select(mval(v), k))) or [z3.BoolVal(True)])))
     return out
 
 
@@ -397,6 +399,8 @@ def _has_list(ty):
         return any(_has_list(e) for e in ty.elems)
     if isinstance(ty, Opt):
         return _has_list(ty.elem)
+    if isinstance(ty, Map):
+        return _has_list(ty.v)
     return False
 
 
@@ -420,7 +424,8 @@ def lmk(ty, length, arr):
 
 def lempty(elem_ty):
     ty = List(elem_ty)
-    arr = z3.Const(CTX.fresh("emptyarr"), z3.ArraySort(z3.IntSort(), CTX.sort(elem_ty)))
+    # one canonical (arbitrary but fixed) backing array per element type: contents beyond the length are irrelevant
+    arr = z3.Const("emptyarr_" + _mangle(elem_ty.key) + CTX.tag, z3.ArraySort(z3.IntSort(), CTX.sort(elem_ty)))
     return lmk(ty, 0, arr)
 
 
@@ -609,7 +614,7 @@ def mremove(m, k):
 
 def mempty(kty, vty):
     ty = Map(kty, vty)
-    val = z3.Const(CTX.fresh("emptyval"), z3.ArraySort(CTX.sort(kty), CTX.sort(vty)))
+    val = z3.Const("emptyval_" + _mangle(ty.key) + CTX.tag, z3.ArraySort(CTX.sort(kty), CTX.sort(vty)))
     return mmk(ty, z3.K(CTX.sort(kty), z3.BoolVal(False)), val)
 
 
